@@ -175,7 +175,9 @@ def verify_function(env, contract, budget_ms=10000, prune=True, log=None):
     # path feasibility (covers)
     cov_jobs = []
     for pi, (m, out, status) in enumerate(paths):
-        cov_jobs.append(solvers.make_job('cover@p%d' % pi, list(m.pc), None, min(budget_ms, 5000)))
+        cj = solvers.make_job('cover@p%d' % pi, list(m.pc), None, 1500)
+        cj['fast'] = True
+        cov_jobs.append(cj)
     answers = solvers.solve_many(jobs + cov_jobs)
     ob_answers, cov_answers = answers[:len(jobs)], answers[len(jobs):]
     # second pass: models for refuted obligations
